@@ -32,6 +32,7 @@ type HarnessSpec struct {
 	WallS     int      `json:"wall_s,omitempty"`
 	Footprint bool     `json:"footprint,omitempty"`
 	Merge     bool     `json:"merge,omitempty"`
+	Cross     string   `json:"cross,omitempty"`
 	Bound     string   `json:"bound"`
 	Workers   int      `json:"workers,omitempty"`
 }
@@ -142,7 +143,7 @@ func load() (*symx.Program, map[string]string, error) {
 }
 
 func defaults(h *HarnessSpec) symx.Options {
-	o := symx.Options{Workers: h.Workers, Solver: h.Solver, TimeoutMs: h.TimeoutMs, MaxSteps: h.MaxSteps, MaxPaths: h.MaxPaths, Footprint: h.Footprint, Merge: h.Merge}
+	o := symx.Options{Workers: h.Workers, Solver: h.Solver, TimeoutMs: h.TimeoutMs, MaxSteps: h.MaxSteps, MaxPaths: h.MaxPaths, Footprint: h.Footprint, Merge: h.Merge, CrossSolver: h.Cross}
 	if o.Solver == "" {
 		o.Solver = "z3"
 	}
@@ -226,6 +227,7 @@ func cmdRun(args []string) int {
 	steps := fs.Int64("steps", 20000000, "instruction budget per path")
 	foot := fs.Bool("footprint", false, "log footprints")
 	merge := fs.Bool("merge", false, "guarded merging of pure regions")
+	cross := fs.String("cross", "", "second solver for verdict cross-checking")
 	verbose := fs.Bool("v", false, "progress")
 	replay := fs.Bool("replay", true, "replay violations natively")
 	known := fs.String("known", "", "comma-separated known-finding ids to treat as live")
@@ -245,7 +247,7 @@ func cmdRun(args []string) int {
 		fmt.Fprintln(os.Stderr, "no such harness:", *name)
 		return 2
 	}
-	o := symx.Options{Workers: *workers, Solver: *solver, TimeoutMs: *tmo, MaxSteps: *steps, MaxPaths: *maxp, MaxViolations: *maxv, Verbose: *verbose, Footprint: *foot, Merge: *merge}
+	o := symx.Options{Workers: *workers, Solver: *solver, TimeoutMs: *tmo, MaxSteps: *steps, MaxPaths: *maxp, MaxViolations: *maxv, Verbose: *verbose, Footprint: *foot, Merge: *merge, CrossSolver: *cross}
 	hr := P.Explore(fn, o)
 	printResult(hr)
 	rc := 0
@@ -266,7 +268,7 @@ func cmdRun(args []string) int {
 func printResult(hr *symx.HarnessResult) {
 	fmt.Printf("harness %s: paths=%d ended=%d dropped=%d violations=%d exhaustive=%v wall=%.1fs\n", hr.Harness, hr.Paths, hr.Ended, hr.Dropped, len(hr.Violations), hr.Exhaustive, hr.WallSeconds)
 	st := hr.Stats
-	fmt.Printf("  decisions=%d obligations=%d (folded %d, unsat %d, unknown %d) solver queries=%d (%.1fs) steps=%d\n", st.Decisions, st.Obligations, st.ObFolded, st.ObUnsat, st.ObUnknown, hr.SolverQ, hr.SolverSec, st.Steps)
+	fmt.Printf("  decisions=%d obligations=%d (folded %d, unsat %d, unknown %d) solver queries=%d (%.1fs, %d cross-checked) steps=%d merged=%d\n", st.Decisions, st.Obligations, st.ObFolded, st.ObUnsat, st.ObUnknown, hr.SolverQ, hr.SolverSec, hr.CrossChecked, st.Steps, st.Merged)
 	for _, e := range hr.EngineErrors {
 		fmt.Printf("  ENGINE-ERROR: %s\n", e)
 	}
@@ -506,6 +508,7 @@ func cmdCheck(args []string) int {
 		Exists      int      `json:"exists_queries"`
 		SolverQ     int      `json:"solver_queries"`
 		SolverSec   float64  `json:"solver_seconds"`
+		Cross       int      `json:"queries_cross_checked_with_second_solver"`
 		Steps       int64    `json:"ssa_instructions_executed"`
 		Exhaustive  bool     `json:"path_tree_exhausted"`
 		Wall        float64  `json:"wall_s"`
@@ -545,7 +548,7 @@ func cmdCheck(args []string) int {
 		}
 		e := hev{Name: h.Name, Bound: h.Bound, Solver: o.Solver, Paths: hr.Paths, Ended: hr.Ended, Dropped: hr.Dropped, Decisions: hr.Stats.Decisions,
 			Obligations: hr.Stats.Obligations, ObFolded: hr.Stats.ObFolded, ObUnsat: hr.Stats.ObUnsat, WatchObl: hr.Stats.WatchObl, Exists: hr.Stats.ExistsQueries,
-			SolverQ: hr.SolverQ, SolverSec: hr.SolverSec, Steps: hr.Stats.Steps, Exhaustive: hr.Exhaustive, Wall: hr.WallSeconds, CheckSites: len(hr.Stats.CheckSites), Incomplete: hr.Incomplete}
+			SolverQ: hr.SolverQ, SolverSec: hr.SolverSec, Cross: hr.CrossChecked, Steps: hr.Stats.Steps, Exhaustive: hr.Exhaustive, Wall: hr.WallSeconds, CheckSites: len(hr.Stats.CheckSites), Incomplete: hr.Incomplete}
 		for l := range hr.Stats.ReachLabels {
 			e.Reach = append(e.Reach, l)
 		}
